@@ -49,7 +49,23 @@ def run_worker(job, wd, name, seed, cwd_kind, cwd_path=None):
             if not dst.exists():
                 shutil.copytree(src, dst)
             table[c] = str(dst / Path(sp).name) if kind == "data" else str(dst)
-    job = dict(job, datasets=private, originals=originals, out=str(jd / "events.ndjson"), cwd_kind=cwd_kind, cwd_entries=entries)
+    files = {}
+    if cwd_kind == "shadow_data":
+        # entries named like the package's own data files (writer rules, default settings, schema; bare names and relative paths), with
+        # other content: unrelated to the calculation, which reads its packaged copies.  (Relation files are left out: a FILE named like
+        # a crystal system in the working directory is, by C09's statement, a relations file the user supplies.)
+        from cv.core import REPO
+        for f in sorted((REPO / "cij" / "data").rglob("*")):
+            rel = f.relative_to(REPO / "cij" / "data")
+            if f.is_file() and rel.parts[0] != "constraints" and f.suffix in (".yml", ".yaml", ".json"):
+                junk = "[]\n" if f.suffix != ".json" else "{}\n"
+                files[f.name] = junk
+                files[str(rel)] = junk
+                files[str(Path("data") / rel)] = junk
+        for name, content in files.items():
+            (cw / name).parent.mkdir(parents=True, exist_ok=True)
+            (cw / name).write_text(content)
+    job = dict(job, cwd_files=files, datasets=private, originals=originals, out=str(jd / "events.ndjson"), cwd_kind=cwd_kind, cwd_entries=entries)
     (jd / "job.json").write_text(json.dumps(job))
     env = dict(os.environ)
     if seed == "random":
@@ -80,6 +96,7 @@ def main(ctx, replay=None):
         raise MachineryError("too few life-cycle behaviours from the simulator")
     # one behaviour with the command line in every tier
     behaviours.append(({"seed": "1", "cwd": "dir_named_like_system"}, [["CliRun", "A"], ["CliRun", "A"]]))
+    behaviours.append(({"seed": "0", "cwd": "shadow_data"}, [["Construct", 1, "A"], ["Write", 1, "tp", "cij"], ["WriteOutput", 1], ["CliRun", "A"]]))
     # the files at a path are replaced between two calculations: the second one is the calculation of the NEW content
     behaviours.append(({"seed": "2", "cwd": "junk"}, [["Construct", 1, "A"], ["Read", 1, "modulus_adiabatic"], ["Rewrite", "A", "C"], ["Construct", 2, "A"],
                                                      ["Read", 2, "modulus_adiabatic"], ["Read", 1, "modulus_isothermal"], ["WriteOutput", 2]]))
